@@ -1,21 +1,24 @@
 #!/bin/sh
-# usage: tools/seed_matrix.sh [Cxx ...]   — for each seeded change (default: all under seeded/): apply seeded/<id>/patch.diff to
-# /repo, run the quick check of the property it breaks under SEEDS (default "0 1 2"), revert, and print one line per run.
-# Never leaves /repo modified (the patch is reverted even when a check crashes); refuses to start on a dirty /repo.
+# usage: tools/seed_matrix.sh [Cxx ...]   — for each seeded change (default: all under seeded/): apply seeded/<id>/patch.diff to a
+# SCRATCH worktree of /repo (HEAD), run the quick check of the property it breaks against that worktree under SEEDS (default
+# "0 1 2"), and print one line per run. /repo itself is never touched (other checks may be running against it); the worktree is
+# removed at the end. (The registered commands always run against /repo; SYNAPGRAD_REPO only redirects them for this experiment.)
 set -u
 cd "$(dirname "$0")/.."
-[ -z "$(git -C /repo status --porcelain)" ] || { echo "/repo is not clean"; exit 2; }
+wt=$(mktemp -d /tmp/seedwt.XXXXXX); rmdir "$wt"
+git -C /repo worktree add -q --detach "$wt" HEAD || exit 2
 # the evidence files describe the unchanged tree: keep them aside while checks run against changed trees
-keep=$(mktemp -d /tmp/evidence.keep.XXXXXX); cp -r evidence/. "$keep"/; trap 'cp -r "$keep"/. evidence/; rm -rf "$keep"; git -C /repo checkout -- . 2>/dev/null; git checkout -- lean/SynapModel/Generated 2>/dev/null' EXIT
+keep=$(mktemp -d /tmp/evidence.keep.XXXXXX); cp -r evidence/. "$keep"/
+trap 'cp -r "$keep"/. evidence/; rm -rf "$keep"; git -C /repo worktree remove --force "$wt" 2>/dev/null; git checkout -- lean/SynapModel/Generated 2>/dev/null' EXIT
 ids=${*:-$(ls seeded | grep '^C')}
 for id in $ids; do
   d=seeded/$id
   prop=$(python3 -c "import json;print(json.load(open('$d/meta.json'))['breaks_property'])")
-  git -C /repo apply "$PWD/$d/patch.diff" || { echo "$id: patch does not apply"; continue; }
+  git -C "$wt" apply "$PWD/$d/patch.diff" || { echo "$id: patch does not apply"; continue; }
   for p in $prop ${EXTRA:-}; do for s in ${SEEDS:-0 1 2}; do
-    out=$(VERIF_SEED=$s ./check "$p" --tier ${TIER:-quick} 2>&1); rc=$?
+    out=$(SYNAPGRAD_REPO="$wt" VERIF_SEED=$s ./check "$p" --tier ${TIER:-quick} 2>&1); rc=$?
     v=$(echo "$out" | grep '^VIOLATION' | head -1 | cut -c1-160)
     echo "$id check=$p seed=$s rc=$rc $v"
   done; done
-  git -C /repo checkout -- . ; [ -z "$(git -C /repo status --porcelain)" ] || { echo "could not revert /repo"; exit 2; }
+  git -C "$wt" checkout -q -- . ; git -C "$wt" clean -fdq synapgrad
 done
